@@ -1,0 +1,284 @@
+//go:build verif
+
+// Machine-checked contracts for package typed (read by /verif/govc; this file
+// contains only comments and adds no declarations to the package).
+
+package typed
+
+// ---------------------------------------------------------------------------
+// ReadBuffer: bounds-checked big-endian reader with a sticky error.
+// ---------------------------------------------------------------------------
+
+//@ func NewReadBuffer(buffer []byte) (r *ReadBuffer)
+//@   ensures fresh(r)
+//@   ensures r.remaining == buffer && r.err == nil && r.initialLength == len(buffer)
+//@   property C03 C06 C18
+
+//@ func (r *ReadBuffer) ReadByte() (b byte, err error)
+//@   modifies r.remaining, r.err
+//@   ensures old(r.err) != nil ==> b == 0 && err == old(r.err) && r.err == old(r.err) && r.remaining == old(r.remaining)
+//@   ensures old(r.err) == nil && len(old(r.remaining)) < 1 ==> b == 0 && err == ErrEOF && r.err == ErrEOF && r.remaining == old(r.remaining)
+//@   ensures old(r.err) == nil && len(old(r.remaining)) >= 1 ==> err == nil && r.err == nil && b == u8at(old(r.remaining), 0) && r.remaining == old(r.remaining)[1:]
+//@   property C03 C06 C18
+
+//@ func (r *ReadBuffer) ReadSingleByte() (b byte)
+//@   modifies r.remaining, r.err
+//@   ensures old(r.err) != nil ==> b == 0 && r.err == old(r.err) && r.remaining == old(r.remaining)
+//@   ensures old(r.err) == nil && len(old(r.remaining)) < 1 ==> b == 0 && r.err == ErrEOF && r.remaining == old(r.remaining)
+//@   ensures old(r.err) == nil && len(old(r.remaining)) >= 1 ==> r.err == nil && b == u8at(old(r.remaining), 0) && r.remaining == old(r.remaining)[1:]
+//@   property C03 C06 C18
+
+// ReadBytes: a negative or too large count is an error, never a panic.
+//@ func (r *ReadBuffer) ReadBytes(n int) (b []byte)
+//@   modifies r.remaining, r.err
+//@   ensures old(r.err) != nil ==> b == nil && r.err == old(r.err) && r.remaining == old(r.remaining)
+//@   ensures old(r.err) == nil && (n < 0 || n > len(old(r.remaining))) ==> b == nil && r.err == ErrEOF && r.remaining == old(r.remaining)
+//@   ensures old(r.err) == nil && 0 <= n && n <= len(old(r.remaining)) ==> r.err == nil && b == old(r.remaining)[:n] && r.remaining == old(r.remaining)[n:]
+//@   property C03 C06 C18
+
+//@ func (r *ReadBuffer) SkipBytes(n int)
+//@   modifies r.remaining, r.err
+//@   ensures old(r.err) != nil ==> r.err == old(r.err) && r.remaining == old(r.remaining)
+//@   ensures old(r.err) == nil && (n < 0 || n > len(old(r.remaining))) ==> r.err == ErrEOF && r.remaining == old(r.remaining)
+//@   ensures old(r.err) == nil && 0 <= n && n <= len(old(r.remaining)) ==> r.err == nil && r.remaining == old(r.remaining)[n:]
+//@   property C03 C06 C18
+
+//@ func (r *ReadBuffer) ReadString(n int) (s string)
+//@   modifies r.remaining, r.err
+//@   ensures old(r.err) != nil ==> s == "" && r.err == old(r.err) && r.remaining == old(r.remaining)
+//@   ensures old(r.err) == nil && (n < 0 || n > len(old(r.remaining))) ==> s == "" && r.err == ErrEOF && r.remaining == old(r.remaining)
+//@   ensures old(r.err) == nil && 0 <= n && n <= len(old(r.remaining)) ==> r.err == nil && len(s) == n && s == bytestr(old(r.remaining)[:n]) && r.remaining == old(r.remaining)[n:]
+//@   property C03 C06 C18
+
+//@ func (r *ReadBuffer) ReadUint16() (v uint16)
+//@   modifies r.remaining, r.err
+//@   ensures old(r.err) != nil ==> v == 0 && r.err == old(r.err) && r.remaining == old(r.remaining)
+//@   ensures old(r.err) == nil && len(old(r.remaining)) < 2 ==> v == 0 && r.err == ErrEOF && r.remaining == old(r.remaining)
+//@   ensures old(r.err) == nil && len(old(r.remaining)) >= 2 ==> r.err == nil && v == be16(old(r.remaining), 0) && r.remaining == old(r.remaining)[2:]
+//@   property C03 C06 C18
+
+//@ func (r *ReadBuffer) ReadUint32() (v uint32)
+//@   modifies r.remaining, r.err
+//@   ensures old(r.err) != nil ==> v == 0 && r.err == old(r.err) && r.remaining == old(r.remaining)
+//@   ensures old(r.err) == nil && len(old(r.remaining)) < 4 ==> v == 0 && r.err == ErrEOF && r.remaining == old(r.remaining)
+//@   ensures old(r.err) == nil && len(old(r.remaining)) >= 4 ==> r.err == nil && v == be32(old(r.remaining), 0) && r.remaining == old(r.remaining)[4:]
+//@   property C03 C06 C18
+
+//@ func (r *ReadBuffer) ReadUint64() (v uint64)
+//@   modifies r.remaining, r.err
+//@   ensures old(r.err) != nil ==> v == 0 && r.err == old(r.err) && r.remaining == old(r.remaining)
+//@   ensures old(r.err) == nil && len(old(r.remaining)) < 8 ==> v == 0 && r.err == ErrEOF && r.remaining == old(r.remaining)
+//@   ensures old(r.err) == nil && len(old(r.remaining)) >= 8 ==> r.err == nil && v == be64(old(r.remaining), 0) && r.remaining == old(r.remaining)[8:]
+//@   property C03 C06 C18
+
+//@ func (r *ReadBuffer) ReadUvarint() (v uint64)
+//@   modifies r.remaining, r.err
+//@   ensures old(r.err) != nil ==> r.err == old(r.err) && r.remaining == old(r.remaining)
+//@   ensures arr(r.remaining) == arr(old(r.remaining)) && len(r.remaining) <= len(old(r.remaining)) &&
+//@           off(r.remaining) + len(r.remaining) == off(old(r.remaining)) + len(old(r.remaining))
+//@   property C03 C18
+
+//@ func (r *ReadBuffer) ReadLen8String() (s string)
+//@   modifies r.remaining, r.err
+//@   ensures old(r.err) != nil ==> s == "" && r.err == old(r.err) && r.remaining == old(r.remaining)
+//@   ensures old(r.err) == nil && len(old(r.remaining)) < 1 ==> s == "" && r.err == ErrEOF
+//@   ensures old(r.err) == nil && len(old(r.remaining)) >= 1 && len(old(r.remaining)) < 1 + u8at(old(r.remaining), 0) ==> s == "" && r.err == ErrEOF
+//@   ensures old(r.err) == nil && len(old(r.remaining)) >= 1 + u8at(old(r.remaining), 0) ==>
+//@             r.err == nil && len(s) == u8at(old(r.remaining), 0) &&
+//@             s == bytestr(old(r.remaining)[1:1+u8at(old(r.remaining), 0)]) &&
+//@             r.remaining == old(r.remaining)[1+u8at(old(r.remaining), 0):]
+//@   property C03 C06 C18
+
+//@ func (r *ReadBuffer) ReadLen16String() (s string)
+//@   modifies r.remaining, r.err
+//@   ensures old(r.err) != nil ==> s == "" && r.err == old(r.err) && r.remaining == old(r.remaining)
+//@   ensures old(r.err) == nil && len(old(r.remaining)) < 2 ==> s == "" && r.err == ErrEOF
+//@   ensures old(r.err) == nil && len(old(r.remaining)) >= 2 && len(old(r.remaining)) < 2 + be16(old(r.remaining), 0) ==> s == "" && r.err == ErrEOF
+//@   ensures old(r.err) == nil && len(old(r.remaining)) >= 2 + be16(old(r.remaining), 0) ==>
+//@             r.err == nil && len(s) == be16(old(r.remaining), 0) &&
+//@             s == bytestr(old(r.remaining)[2:2+be16(old(r.remaining), 0)]) &&
+//@             r.remaining == old(r.remaining)[2+be16(old(r.remaining), 0):]
+//@   property C03 C06 C18
+
+//@ func (r *ReadBuffer) Remaining() (b []byte)
+//@   ensures b == r.remaining
+//@   property C03 C18
+
+//@ func (r *ReadBuffer) BytesRemaining() (n int)
+//@   ensures n == len(r.remaining)
+//@   property C03 C18
+
+//@ func (r *ReadBuffer) BytesRead() (n int)
+//@   property C03 C18
+
+//@ func (r *ReadBuffer) Wrap(b []byte)
+//@   modifies r.initialLength, r.remaining, r.err
+//@   ensures r.remaining == b && r.err == nil && r.initialLength == len(b)
+//@   property C03 C06 C18
+
+//@ func (r *ReadBuffer) Err() (err error)
+//@   ensures err == r.err
+//@   property C03 C18
+
+// ---------------------------------------------------------------------------
+// WriteBuffer: fixed-size big-endian writer with a sticky error.
+// WB: remaining is a suffix of buffer (same array, same end).
+// ---------------------------------------------------------------------------
+
+//@ pred WB(w *WriteBuffer) := (w.remaining == nil && len(w.buffer) == 0 || arr(w.remaining) == arr(w.buffer)) &&
+//@        off(w.remaining) + len(w.remaining) == off(w.buffer) + len(w.buffer) &&
+//@        len(w.remaining) <= len(w.buffer) && off(w.buffer) <= off(w.remaining)
+
+//@ func NewWriteBuffer(buffer []byte) (w *WriteBuffer)
+//@   ensures fresh(w)
+//@   ensures w.buffer == buffer && w.remaining == buffer && w.err == nil
+//@   property C01 C06 C18
+
+//@ func (w *WriteBuffer) setErr(err error)
+//@   modifies w.err
+//@   ensures old(w.err) != nil ==> w.err == old(w.err)
+//@   ensures old(w.err) == nil ==> w.err == err
+//@   property C01 C06 C18
+
+//@ func (w *WriteBuffer) reserve(n int) (b []byte)
+//@   requires n >= 0
+//@   modifies w.remaining, w.err
+//@   ensures old(w.err) != nil ==> b == nil && w.err == old(w.err) && w.remaining == old(w.remaining)
+//@   ensures old(w.err) == nil && n > len(old(w.remaining)) ==> b == nil && w.err == ErrBufferFull && w.remaining == old(w.remaining)
+//@   ensures old(w.err) == nil && n <= len(old(w.remaining)) ==> w.err == nil && b == old(w.remaining)[:n] && w.remaining == old(w.remaining)[n:]
+//@   property C01 C06 C18
+
+//@ func (w *WriteBuffer) WriteSingleByte(n byte)
+//@   modifies w.remaining, w.err, elems(w.remaining)
+//@   ensures old(w.err) != nil ==> w.err == old(w.err) && w.remaining == old(w.remaining)
+//@   ensures old(w.err) == nil && len(old(w.remaining)) == 0 ==> w.err == ErrBufferFull && w.remaining == old(w.remaining)
+//@   ensures old(w.err) == nil && len(old(w.remaining)) > 0 ==> w.err == nil && w.remaining == old(w.remaining)[1:] && u8at(old(w.remaining), 0) == n
+//@   property C01 C06 C18
+
+//@ func (w *WriteBuffer) WriteBytes(in []byte)
+//@   modifies w.remaining, w.err, elems(w.remaining)
+//@   ensures old(w.err) != nil ==> w.err == old(w.err) && w.remaining == old(w.remaining)
+//@   ensures old(w.err) == nil && len(in) > len(old(w.remaining)) ==> w.err == ErrBufferFull && w.remaining == old(w.remaining)
+//@   ensures old(w.err) == nil && len(in) <= len(old(w.remaining)) ==> w.err == nil && w.remaining == old(w.remaining)[len(in):]
+//@   ensures old(w.err) == nil && len(in) <= len(old(w.remaining)) ==>
+//@             forall j int :: 0 <= j && j < len(in) ==> u8at(old(w.remaining), j) == old(u8at(in, j))
+//@   property C01 C06 C18
+
+//@ func (w *WriteBuffer) WriteUint16(n uint16)
+//@   modifies w.remaining, w.err, elems(w.remaining)
+//@   ensures old(w.err) != nil ==> w.err == old(w.err) && w.remaining == old(w.remaining)
+//@   ensures old(w.err) == nil && 2 > len(old(w.remaining)) ==> w.err == ErrBufferFull && w.remaining == old(w.remaining)
+//@   ensures old(w.err) == nil && 2 <= len(old(w.remaining)) ==> w.err == nil && w.remaining == old(w.remaining)[2:] && be16(old(w.remaining), 0) == n
+//@   property C01 C06 C18
+
+//@ func (w *WriteBuffer) WriteUint32(n uint32)
+//@   modifies w.remaining, w.err, elems(w.remaining)
+//@   ensures old(w.err) != nil ==> w.err == old(w.err) && w.remaining == old(w.remaining)
+//@   ensures old(w.err) == nil && 4 > len(old(w.remaining)) ==> w.err == ErrBufferFull && w.remaining == old(w.remaining)
+//@   ensures old(w.err) == nil && 4 <= len(old(w.remaining)) ==> w.err == nil && w.remaining == old(w.remaining)[4:] && be32(old(w.remaining), 0) == n
+//@   property C06 C18
+
+//@ func (w *WriteBuffer) WriteUint64(n uint64)
+//@   modifies w.remaining, w.err, elems(w.remaining)
+//@   ensures old(w.err) != nil ==> w.err == old(w.err) && w.remaining == old(w.remaining)
+//@   ensures old(w.err) == nil && 8 > len(old(w.remaining)) ==> w.err == ErrBufferFull && w.remaining == old(w.remaining)
+//@   ensures old(w.err) == nil && 8 <= len(old(w.remaining)) ==> w.err == nil && w.remaining == old(w.remaining)[8:] && be64(old(w.remaining), 0) == n
+//@   property C06 C18
+
+//@ func (w *WriteBuffer) WriteString(s string)
+//@   modifies w.remaining, w.err, elems(w.remaining)
+//@   ensures old(w.err) != nil ==> w.err == old(w.err) && w.remaining == old(w.remaining)
+//@   ensures old(w.err) == nil && len(s) > len(old(w.remaining)) ==> w.err == ErrBufferFull && w.remaining == old(w.remaining)
+//@   ensures old(w.err) == nil && len(s) <= len(old(w.remaining)) ==> w.err == nil && w.remaining == old(w.remaining)[len(s):]
+//@   ensures old(w.err) == nil && len(s) <= len(old(w.remaining)) ==> bytestr(old(w.remaining)[:len(s)]) == s
+//@   property C06 C18
+
+// Over-long strings are rejected (sticky error), never silently truncated.
+//@ func (w *WriteBuffer) WriteLen8String(s string)
+//@   modifies w.remaining, w.err, elems(w.remaining)
+//@   ensures old(w.err) != nil ==> w.err == old(w.err) && w.remaining == old(w.remaining)
+//@   ensures len(s) > 255 ==> w.err != nil
+//@   ensures old(w.err) == nil && len(s) <= 255 && 1 + len(s) <= len(old(w.remaining)) ==>
+//@             w.err == nil && w.remaining == old(w.remaining)[1+len(s):] && u8at(old(w.remaining), 0) == len(s)
+//@   ensures old(w.err) == nil && len(s) <= 255 && 1 + len(s) <= len(old(w.remaining)) ==>
+//@             bytestr(old(w.remaining)[1:1+len(s)]) == s
+//@   ensures old(w.err) == nil && 1 + len(s) > len(old(w.remaining)) ==> w.err != nil
+//@   property C06 C18
+
+//@ func (w *WriteBuffer) WriteLen16String(s string)
+//@   modifies w.remaining, w.err, elems(w.remaining)
+//@   ensures old(w.err) != nil ==> w.err == old(w.err) && w.remaining == old(w.remaining)
+//@   ensures len(s) > 65535 ==> w.err != nil
+//@   ensures old(w.err) == nil && len(s) <= 65535 && 2 + len(s) <= len(old(w.remaining)) ==>
+//@             w.err == nil && w.remaining == old(w.remaining)[2+len(s):] && be16(old(w.remaining), 0) == len(s)
+//@   ensures old(w.err) == nil && len(s) <= 65535 && 2 + len(s) <= len(old(w.remaining)) ==>
+//@             bytestr(old(w.remaining)[2:2+len(s)]) == s
+//@   ensures old(w.err) == nil && 2 + len(s) > len(old(w.remaining)) ==> w.err != nil
+//@   property C06 C18 C20
+
+//@ func (w *WriteBuffer) DeferByte() (ref ByteRef)
+//@   modifies w.remaining, w.err, elems(w.remaining)
+//@   ensures len(old(w.remaining)) == 0 ==> ref == nil && w.remaining == old(w.remaining) && (old(w.err) == nil ==> w.err == ErrBufferFull) && (old(w.err) != nil ==> w.err == old(w.err))
+//@   ensures len(old(w.remaining)) > 0 ==> w.err == old(w.err) && w.remaining == old(w.remaining)[1:] && ref == old(w.remaining) && u8at(ref, 0) == 0
+//@   property C01 C02
+
+//@ func (w *WriteBuffer) deferred(n int) (bs []byte)
+//@   requires n >= 0
+//@   modifies w.remaining, w.err, elems(w.remaining)
+//@   ensures old(w.err) != nil ==> bs == nil && w.err == old(w.err) && w.remaining == old(w.remaining)
+//@   ensures old(w.err) == nil && n > len(old(w.remaining)) ==> bs == nil && w.err == ErrBufferFull && w.remaining == old(w.remaining)
+//@   ensures old(w.err) == nil && n <= len(old(w.remaining)) ==> w.err == nil && bs == old(w.remaining)[:n] && w.remaining == old(w.remaining)[n:]
+//@   property C01 C02
+
+//@ func (w *WriteBuffer) DeferUint16() (ref Uint16Ref)
+//@   modifies w.remaining, w.err, elems(w.remaining)
+//@   ensures old(w.err) != nil ==> ref == nil && w.err == old(w.err) && w.remaining == old(w.remaining)
+//@   ensures old(w.err) == nil && 2 > len(old(w.remaining)) ==> ref == nil && w.err == ErrBufferFull && w.remaining == old(w.remaining)
+//@   ensures old(w.err) == nil && 2 <= len(old(w.remaining)) ==> w.err == nil && ref == old(w.remaining)[:2] && w.remaining == old(w.remaining)[2:]
+//@   property C01
+
+//@ func (w *WriteBuffer) DeferBytes(n int) (ref BytesRef)
+//@   requires n >= 0
+//@   modifies w.remaining, w.err, elems(w.remaining)
+//@   ensures old(w.err) != nil ==> ref == nil && w.err == old(w.err) && w.remaining == old(w.remaining)
+//@   ensures old(w.err) == nil && n > len(old(w.remaining)) ==> ref == nil && w.err == ErrBufferFull && w.remaining == old(w.remaining)
+//@   ensures old(w.err) == nil && n <= len(old(w.remaining)) ==> w.err == nil && ref == old(w.remaining)[:n] && w.remaining == old(w.remaining)[n:]
+//@   property C01 C02
+
+//@ func (w *WriteBuffer) BytesRemaining() (n int)
+//@   ensures n == len(w.remaining)
+//@   property C01
+
+//@ func (w *WriteBuffer) BytesWritten() (n int)
+//@   ensures n == len(w.buffer) - len(w.remaining)
+//@   property C01 C06
+
+//@ func (w *WriteBuffer) Reset()
+//@   modifies w.remaining, w.err
+//@   ensures w.remaining == w.buffer && w.err == nil
+//@   property C01 C06
+
+//@ func (w *WriteBuffer) Err() (err error)
+//@   ensures err == w.err
+//@   property C01 C06 C18
+
+//@ func (w *WriteBuffer) Wrap(b []byte)
+//@   modifies w.buffer, w.remaining
+//@   ensures w.buffer == b && w.remaining == b
+//@   property C01 C06
+
+//@ func (ref ByteRef) Update(b byte)
+//@   requires ref == nil || len(ref) >= 1
+//@   modifies elems(ref)
+//@   ensures ref != nil ==> u8at(ref, 0) == b
+//@   property C01
+
+//@ func (ref Uint16Ref) Update(n uint16)
+//@   requires ref == nil || len(ref) >= 2
+//@   modifies elems(ref)
+//@   ensures ref != nil ==> be16(ref, 0) == n
+//@   property C01
+
+//@ func (ref BytesRef) Update(b []byte)
+//@   modifies elems(ref)
+//@   property C01 C02
